@@ -31,6 +31,11 @@ CLAIMED = {
          "C03's driver and ledger plus an IIN model: class-k available iff the ledger holds a class-k row not part of a response still awaiting confirmation; overflow from a reported discard until a valid confirmation leaves every type below capacity; restart until WRITE g80v1[7]=0 is processed (across reconnects); broadcast from receipt until reported (mandatory: until a valid confirm after it was reported); need-time / local-control / device-trouble / config-corrupt mirror the application mock. Alphabet of 19-24 events incl. broadcasts of the three confirm modes, restart-bit writes, reconnect, application flips; depth 4 quick, 5-7 thorough; buffer sizes 1/2, retries 0/1. Effects of requests are applied at the observation-order position of the corresponding callback so that requests retained across a confirm wait are modelled in the order the outstation processes them.",
          "Trusted: engine codecs, DESIGN 2.3, the global observation counter shared by pipe writes and callbacks. Lenient ('either') zones: class bits of the response to the DISABLE_UNSOLICITED that cancels a series; a mandatory broadcast after a solicited confirm that arrives during / for a response sent during an unsolicited wait. Updates are placed at quiescent points only (H6 not built).",
          "DESIGN.md §5 C13", True),
+ "C14": ("model_checking",
+         "bounded-exhaustive exploration of all event histories of the real outstation task from a freshly created outstation, with a temporal monitor over virtual timestamps of every transmitted fragment and a liveness drain",
+         "Alphabet of 15-18 events (updates in two classes, ENABLE/DISABLE_UNSOLICITED for class 1 / all, right and wrong unsolicited confirms, solicited confirm, READ class 1 / class 0, another request, time advances of confirm timeout -1 ms / 1 ms / exactly and retry delay -1 ms / exactly, reconnect), depth 4-5 quick / 5-6 thorough, retry limits 0/1 (quick) and None/0/1/2, retry delay 5 s and 2 s. Monitor: only null responses with fresh sequence numbers until one is confirmed; data only for enabled classes; never a second unsolicited response (nor an early retry) while one is awaited; retries byte-identical, exactly at the confirm timeout, at most the configured number, and not omitted while retries remain; new series no sooner than the retry delay after a failed one; DISABLE ends the series; a READ during the wait gets no immediate response and is answered at the instant the series ends unless superseded; other requests are answered at the instant they arrive; with an ideal master every held event of an enabled class is eventually reported (drain).",
+         "Trusted: engine codecs, paused clock (timers fire at their exact instant), DESIGN 2.3. After a reconnect the start of the next series is not constrained. A READ that ends a solicited confirm wait may be overtaken by an unsolicited response starting at the same instant (treated as deferred).",
+         "DESIGN.md §5 C14", True),
 }
 
 NOT_YET = {
@@ -42,7 +47,6 @@ NOT_YET = {
  "C09": "designed in DESIGN §5 C09; check not built yet",
  "C10": "designed in DESIGN §5 C10; check not built yet",
  "C11": "designed in DESIGN §5 C11; check not built yet",
- "C14": "designed in DESIGN §5 C14; check not built yet",
  "C15": "designed in DESIGN §5 C15; check not built yet",
  "C16": "designed in DESIGN §5 C16; check not built yet",
  "C17": "designed in DESIGN §5 C17; check not built yet",
